@@ -154,6 +154,10 @@ pub fn cell_to_lonlat(cell: u64) -> Result<LonLat, String> {
     }
 
     let cell_data = deserialize(cell)?;
+    // Non-zero bit patterns without a resolution marker alias the world cell
+    if cell_data.resolution == -1 {
+        return Ok(LonLat::new(0.0, 0.0));
+    }
     let pentagon = get_pentagon(&cell_data)?;
     let dodecahedron = DodecahedronProjection::get_thread_local();
     let point = dodecahedron.inverse(pentagon.get_center(), cell_data.origin_id)?;
@@ -189,6 +193,10 @@ pub fn cell_to_boundary(
 
     let opts = options.unwrap_or_default();
     let cell_data = deserialize(cell_id)?;
+    // Non-zero bit patterns without a resolution marker alias the world cell
+    if cell_data.resolution == -1 {
+        return Ok(Vec::new());
+    }
 
     let segments = opts
         .segments
